@@ -60,6 +60,12 @@ struct stack {
     /// \brief Move constructor.
     constexpr stack(stack&& other) noexcept = default;
 
+    /// \brief Copy assignment.
+    constexpr auto operator=(stack const& other) -> stack& = default;
+
+    /// \brief Move assignment.
+    constexpr auto operator=(stack&& other) -> stack& = default;
+
     /// \brief Checks if the underlying container has no elements.
     [[nodiscard]] constexpr auto empty() const noexcept(noexcept(declval<Container>().empty())) -> bool
     {
